@@ -129,7 +129,7 @@ def showDSs (l : List DS) : String := if l.isEmpty then "-" else ",".intercalate
 def showVal (L : Ledger) (a : Addr) : String :=
   match L.vals a with
   | none => s!"{toHex a}:-"
-  | some v => s!"{toHex a}:{v.stake.toNat}:{if v.committees.isEmpty then "-" else "/".intercalate (v.committees.map (fun c => toString c.toNat))}"
+  | some v => s!"{toHex a}:{v.stake.toNat}:{if v.committees.isEmpty then "-" else "/".intercalate (v.committees.map (fun c => toString c.toNat))}:{if v.unstaking then "u" else "s"}"
 
 def step (st : State) (line : String) : State × String :=
   match words line with
@@ -234,6 +234,7 @@ def step (st : State) (line : String) : State × String :=
       let sc ← (field rest "scoped") >>= (·.toNat?)
       let mx ← (field rest "max") >>= u64
       let pct ← (field rest "pct") >>= u64
+      let minS ← (field rest "min") >>= u64
       let keys ← (field rest "keys") >>= fun s => (listOf s ",").mapM fun m =>
         match m.splitOn "=" with
         | [k, a] => do let k ← ofHex k; let a ← ofHex a; pure (k, a)
@@ -242,9 +243,9 @@ def step (st : State) (line : String) : State × String :=
         match m.splitOn ":" with
         | [a, stake, cs] => do
           let a ← ofHex a; let stake ← u64 stake; let cs ← parseU64s cs
-          pure (a, ({ stake := stake, committees := cs } : Val))
+          pure (a, ({ stake := stake, committees := cs, unstaking := false } : Val))
         | _ => none
-      pure { st with P := { committeeScoped := sc == 1, maxSlash := mx, dsPercent := pct }, addrOf := keys,
+      pure { st with P := { committeeScoped := sc == 1, maxSlash := mx, dsPercent := pct, minStake := minS }, addrOf := keys,
                      L := { Ledger.empty with vals := fun a => vals.lookup a } }
     match r with
     | some s => (s, "ok")
